@@ -170,7 +170,17 @@ func (s *stream) listen(args models.ListenerArgs) {
 func (s *stream) reopenStream(vbID uint16) {
 	retry := 5
 
+	// the session this stream end belongs to (Close() replaces the offset table)
+	offsets := s.offsets
+
 	for {
+		if s.closing || s.offsets != offsets {
+			// the stream is being closed or has been closed since (rebalance): the Open() that follows opens
+			// every assigned vBucket again, a re-open on top of it could only fail and terminate the client
+			logger.Log.Debug("skip re-open stream, vbID: %d, stream closed meanwhile", vbID)
+			return
+		}
+
 		err := s.openStream(vbID)
 		if err == nil {
 			logger.Log.Info("re-open stream, vbID: %d", vbID)
